@@ -74,7 +74,8 @@ impl Resolver {
 
     fn lookup_exact(&self, name: &Rc<String>, context: Namespace, deps: &mut Vec<Id>) -> bool {
         let to_check: &[Namespace] = match context {
-            Namespace::Quantity => &[Namespace::Quantity],
+            // Quantities are made of quantities and base units.
+            Namespace::Quantity => &[Namespace::Quantity, Namespace::Unit],
             _ => &[Namespace::Unit, Namespace::Prefix, Namespace::Quantity],
         };
         for namespace in to_check.iter().copied() {
